@@ -75,7 +75,7 @@ T = [
   "VIOLATION C18 no-failing-input-found: verify_base/verify_label#E_label"),
  ("C18-pubkey-length", "C18", "sub-agent",
   "a public key altered by APPENDING bytes (bit flips and truncations are still refused)",
-  "NOT DETECTED (exit 0): the change is inside ecvrf_impl.rs (TryFrom<&[u8]> for VRFPublicKey), which the C18 claim lists as trusted/external (curve arithmetic behind it is out of Kani's reach)"),
+  "First run: NOT DETECTED (ecvrf_impl.rs was wholly trusted) -> Kani harnesses c18_public_key_length / c18_proof_length added (curve operations stubbed, every input length symbolic); now VIOLATION C18 no-failing-input-found: kani/c18_public_key_length"),
 ]
 rows = []
 for (sid, prop, src, needs, res) in T:
